@@ -184,6 +184,14 @@ func c11List(tier string) []c11scen {
 		return w
 	}, pb: 2,
 		threads: [][]c11call{{callReplace("R", "xaby", "<$1>"), callReplace("R", "ab", "${1}-$&")}, {callReplace("R", "xaby", "[$2$1]"), callReplace("R", "ab", "<$1>")}}})
+	// S12 a right-to-left Replace (its own buffer handling) has run before two goroutines decode inputs of the same
+	// size class at the same time
+	add(c11scen{name: "S12 after a right-to-left Replace: MatchString||MatchString", build: func() *c11world {
+		w := mk(map[string][]any{"L": {`b`, regexp2.RightToLeft}, "R1": {`(?:ab)*c$`}, "R2": {`(?:ba)*d$`}})()
+		w.re["L"].Replace("xbyb", "#", -1, -1)
+		return w
+	}, stepK: 12, pb: 2,
+		threads: [][]c11call{{callMatchString("R1", long1k)}, {callMatchString("R2", long1kb)}}})
 	// S8 balancing pattern ∥ bool-only call on the same Regexp
 	add(c11scen{name: "S8 balancing||bool", build: mk(map[string][]any{"R": {`(?<o>a)+(?<-o>b)+(?(o)(?!))`}}), stepK: 8,
 		threads: [][]c11call{{callFind("R", "aabb"), callIterate("R", "abab")}, {callMatchString("R", "aab"), callMatchRunes("R", "ab")}}})
@@ -266,6 +274,8 @@ func c11Scenarios(tier string) []schedScenario {
 			switch {
 			case s.Diverged != "":
 				o.Harness = s.Diverged
+			case s.Fault != "":
+				o.Verdict = s.Fault
 			case s.Deadlock:
 				o.Verdict = "deadlock: a goroutine is blocked forever"
 			case s.Aborted:
